@@ -95,7 +95,19 @@ func wopRun(c *rux.Context, op Sx, obs *[]Sx) {
 	case "hd":
 		c.SetHeader(op.List[1].Str(), op.List[2].Str())
 	case "wr":
-		_, _ = c.Resp.Write(op.List[1].Bytes())
+		// the ways a handler writes bytes: the writer itself, the Context helpers, io.WriteString (which prefers an
+		// io.StringWriter when the writer is one); a zero-length write is a write too (it commits the header)
+		b := op.List[1].Bytes()
+		switch (len(b) + len(*obs) + int(c.Length()+1)) % 4 {
+		case 0:
+			_, _ = c.Resp.Write(b)
+		case 1: // (the Context helpers panic on a short write - after the write has happened: swallowed here)
+			func() { defer func() { _ = recover() }(); c.WriteBytes(b) }()
+		case 2:
+			func() { defer func() { _ = recover() }(); c.WriteString(string(b)) }()
+		default:
+			_, _ = io.WriteString(c.Resp, string(b))
+		}
 	case "fl":
 		c.Resp.(http.Flusher).Flush()
 	case "he":
@@ -120,7 +132,11 @@ func wopRunStd(w http.ResponseWriter, rq *http.Request, op Sx) {
 	case "hd":
 		w.Header().Set(op.List[1].Str(), op.List[2].Str())
 	case "wr":
-		_, _ = w.Write(op.List[1].Bytes())
+		if b := op.List[1].Bytes(); len(b)%2 == 1 {
+			_, _ = io.WriteString(w, string(b))
+		} else {
+			_, _ = w.Write(b)
+		}
 	case "fl":
 		w.(http.Flusher).Flush()
 	case "he":
